@@ -31,7 +31,7 @@ BOUNDS = {
     'quick': 'shape family: vers{2.0,1.2} x NULL{-999.25,-9999} x 1..3 curves x 1..3 frames (+ 0..3 extra well lines, '
              'no/empty/1/2 parameter lines): canonical layout + every single layout deviation (23 non-gap deviations, 4 '
              'fillers at every inter-line gap); <=2 deviations for 3 of those contents; field family: full product '
-             'mnem(6) x unit(5) x valu(11) x desc(7) on one well / curve / parameter line in canonical layout and, for '
+             'mnem(8) x unit(6) x valu(12) x desc(7) on one well / curve / parameter line in canonical layout and, for '
              'lines one field away from the default, every single header deviation; STRT and version line sweeps; cell '
              'family: full product of 7 cell texts over the non-index cells of 2x1, 2x2, 2x3, 3x1 (curves x frames), both '
              'NULLs, canonical + up to 14 data layouts (wrap modes, separators, leading/trailing blanks, no final newline, wrap x separator); 5 index number styles; text tails: 1..3 curves x 1..3 frames of one- and two-character cells x wrap4 x final newline2 x lead2 x trail2 x sep2; smallest content (1 curve, 1 frame): full product of header '
@@ -67,7 +67,7 @@ ASSUMPTIONS = [
 # ---------------------------------------------------------------------------------------------------------------
 MNEMS = ['GR', 'A1', 'SFLU', 'X-Y_2', '42', 'NO', 'TIME', 'DATE']   # TIME / DATE: the reader has special (DATE, D) and (TIME, HHMMSS) channels; with other units they are ordinary curves
 UNITS = ['', 'M', 'F', 'US/F', '.1IN', 'S']
-VALUES = ['', '7', '-7', '1.5', '1e3', 'yes', 'NO', '12:30:00', '13-DEC-86', 'A.B 1', 'a b  c']
+VALUES = ['', '7', '-7', '1.5', '1e3', 'yes', 'NO', '12:30:00', '13-DEC-86', 'A.B 1', 'a b  c', '9007199254740993']   # last: an integer that no double holds (2^53 + 1)
 DESCS = ['', 'text', 'two words', '1 DEPTH', 'x.y', '42', 'yes']
 CELLS = ['1.5', '-0.25', '1e-3', L.CELL_NULL, 'abc', 'NaN', '1.2.3']
 
